@@ -506,6 +506,9 @@ func (ts *TestScript) setup() string {
 		)
 	}
 	ts.cd = env.Cd
+	// Make the initial environment visible to ts.expand while the archive
+	// is unpacked, so that file names such as $WORK/x expand as documented.
+	ts.setEnv(env.Vars)
 	// Unpack archive.
 	a, err := txtar.ParseFile(ts.file)
 	ts.Check(err)
@@ -526,16 +529,20 @@ func (ts *TestScript) setup() string {
 		ts.Check(ts.params.Setup(env))
 	}
 	ts.cd = env.Cd
-	ts.env = env.Vars
+	ts.setEnv(env.Vars)
 	ts.values = env.Values
+	return string(a.Comment)
+}
 
+// setEnv sets the script's environment to the given list of key=value pairs.
+func (ts *TestScript) setEnv(vars []string) {
+	ts.env = vars
 	ts.envMap = make(map[string]string)
 	for _, kv := range ts.env {
 		if i := strings.Index(kv, "="); i >= 0 {
 			ts.envMap[envvarname(kv[:i])] = kv[i+1:]
 		}
 	}
-	return string(a.Comment)
 }
 
 // run runs the test script.
